@@ -140,6 +140,16 @@ def rule_vocabulary_keep():
         import json as _json
         snap = _json.load(open(os.path.join(VERIF, "tables", "names.json")))
         known = set(snap.get("fns", {}))
+        # ... or a function a rule names by its full path (one that exists on the reference tree only under cfg(test),
+        # e.g. SplitVec::split, is still a function the rules know)
+        import ast as _ast
+        import glob as _glob
+        import re as _re
+        full = _re.compile(r"^[a-z_][A-Za-z0-9_]*(::[A-Za-z_][A-Za-z0-9_]*)+$")
+        for f_ in sorted(_glob.glob(os.path.join(VERIF, "rules", "*.py"))):
+            for node in _ast.walk(_ast.parse(open(f_).read())):
+                if isinstance(node, _ast.Constant) and isinstance(node.value, str) and full.match(node.value):
+                    known.add(node.value)
     except (OSError, ValueError):
         known = None
 
